@@ -53,6 +53,10 @@ type c16Op struct {
 	Kind string `json:"kind"` // fail: check | trans | traffic | forced
 	Err  string `json:"err"`
 	Alt  bool   `json:"alt"` // use the alternative spelling of the network type (IsDns / unset udp domain)
+	// op "probe2": one run of the real two-attempt probe driver with a scripted dial function
+	A1     string `json:"a1"`     // genuine outcome of attempt 1: ok | err | skip
+	A2     string `json:"a2"`     // genuine outcome of attempt 2 (if it runs)
+	Cancel string `json:"cancel"` // when teardown cancels the dialer's context: none | before | between | during2 | after
 }
 
 type c16Case struct {
@@ -379,6 +383,45 @@ func c16Run(cs c16Case) (res c16Result) {
 		case "probe_skip":
 			latFor = []int{op.N}
 			_, _ = dialer.VerifC16Check(w.dialers[op.N], c16Type(op.Dom, op.Alt), func(ctx context.Context, t *dialer.NetworkType) (bool, error) { return false, nil })
+		case "probe2":
+			latFor = []int{op.N}
+			d := w.dialers[op.N]
+			calls := 0
+			fn := func(ctx context.Context, t *dialer.NetworkType) (bool, error) {
+				calls++
+				if ctx.Err() != nil { // like a real dial: a cancelled context yields context.Canceled
+					return false, fmt.Errorf("dial tcp: %w", ctx.Err())
+				}
+				out := op.A1
+				if calls >= 2 {
+					out = op.A2
+				}
+				if calls == 2 && op.Cancel == "during2" {
+					_ = d.Close() // teardown while the retry is in flight
+					return false, fmt.Errorf("dial tcp: %w", context.Canceled)
+				}
+				ok, err := false, error(nil)
+				switch out {
+				case "ok":
+					ok = true
+				case "err":
+					err = errors.New("connect: connection refused")
+				case "skip":
+				default:
+					panic("bad attempt outcome " + out)
+				}
+				if calls == 1 && op.Cancel == "between" {
+					_ = d.Close() // teardown after the first attempt's result is determined, before the retry starts
+				}
+				return ok, err
+			}
+			if op.Cancel == "before" {
+				_ = d.Close()
+			}
+			_, _ = dialer.VerifC16Check(d, c16Type(op.Dom, op.Alt), fn)
+			if op.Cancel == "after" {
+				_ = d.Close()
+			}
 		case "traffic_ok":
 			latFor = []int{op.N}
 			w.dialers[op.N].ReportAvailableTraffic(c16Type(op.Dom, op.Alt))
